@@ -77,9 +77,11 @@ def model_pairs(name, maxl, tlevels, th, timeout=1800):
 # classification mirror (for stratified sampling; the judge recomputes it in TLA+)
 # ------------------------------------------------------------------------------------
 class Shape:
-    def __init__(self, name, maxl, tlevels):
+    def __init__(self, name, maxl, tlevels, tunit=None):
         self.name = name
         self.pieces, self.closed, self.unit, self.tunit = CURVES[name]
+        if tunit is not None:
+            self.tunit = tunit            # time-graded population: same abstract pairs at a finer time scale
         self.U = 2 ** maxl
         self.UT = 2 ** tlevels
         self.maxl, self.tlevels = maxl, tlevels
